@@ -2720,3 +2720,249 @@ func ruleC04BlockCountRoundsUp(c *Ctx) {
 		}
 	}
 }
+
+// ================= sixth round =================
+
+func init() {
+	extend("C12", ruleC12PrefixNormalised)
+	extend("C16", ruleNoRootOnlyOnQueryError("C16.no-root-only-on-query-error"))
+	extend("C17", ruleNoRootOnlyOnQueryError("C17.no-root-only-on-query-error"), ruleC17TrailingSlashRetry)
+}
+
+// ruleC12PrefixNormalised: in Move the stored name (index spelling) and the caller's source path (caller spelling)
+// are both slash-normalised before one is trimmed off the other.
+func ruleC12PrefixNormalised(c *Ctx) {
+	const rule = "C12.prefix-normalised"
+	c.floor(rule, 1, "the prefix trim in Operations.Move")
+	f := c.fn("pkg/operations", "(*Operations).Move")
+	if f == nil {
+		return
+	}
+	info := f.Pkg.TypesInfo
+	from := paramVar(f, "from")
+	n := 0
+	walkOwn(f.Body(), func(nd ast.Node) {
+		call, ok := nd.(*ast.CallExpr)
+		if !ok || !isPkgFunc(calleeObj(info, call), "strings", "TrimPrefix") || len(call.Args) != 2 {
+			return
+		}
+		// the trim of the source path off a stored name
+		if !usesObj(info, call.Args[1], from) {
+			return
+		}
+		mentionsName := false
+		ast.Inspect(call.Args[0], func(m ast.Node) bool {
+			if se, ok := m.(*ast.SelectorExpr); ok && se.Sel.Name == "Name" {
+				mentionsName = true
+			}
+			return true
+		})
+		if !mentionsName {
+			return
+		}
+		n++
+		norm := func(e ast.Expr) bool {
+			in, ok := ast.Unparen(e).(*ast.CallExpr)
+			if !ok || !isPkgFunc(calleeObj(info, in), "strings", "TrimPrefix") || len(in.Args) != 2 {
+				return false
+			}
+			s, ok := constString(info, in.Args[1])
+			return ok && s == "/"
+		}
+		c.verdictIf(norm(call.Args[0]) && norm(call.Args[1]), rule, f, fmt.Sprintf("prefix trim#%d", n), call.Pos(), "both the stored name and the caller's source path lose their leading slash before the prefix is trimmed",
+			"the caller's source path is trimmed off the stored name without both being slash-normalised first: an index rebuilt from the tape stores names relative (\"d/x\") while callers pass \"/d\", so nothing is trimmed and moved entries are written under \"<to>/<old full name>\"")
+	})
+	if n == 0 {
+		c.unresolved("no TrimPrefix(<stored name>, <from>) in Operations.Move")
+	}
+}
+
+// ruleNoRootOnlyOnQueryError: ErrNoRootDirectory is reported only on the failure branch of the root query - an
+// empty root NAME ("" is what ./- and /-relative archives and rebuilt indexes have) is a root.
+func ruleNoRootOnlyOnQueryError(rule string) func(*Ctx) {
+	return func(c *Ctx) {
+		c.floor(rule, 1, "returns of ErrNoRootDirectory in GetRootPath")
+		f := c.fn("pkg/persisters", "(*MetadataPersister).GetRootPath")
+		noRoot := c.extObjRepo("pkg/config", "ErrNoRootDirectory")
+		if f == nil || noRoot == nil {
+			return
+		}
+		info := f.Pkg.TypesInfo
+		fl := c.flow(f)
+		errT := types.Universe.Lookup("error").Type()
+		n := 0
+		for i, ret := range returnsIn(f) {
+			if len(ret.Results) == 0 {
+				continue
+			}
+			se, ok := ast.Unparen(ret.Results[len(ret.Results)-1]).(*ast.SelectorExpr)
+			if !ok || info.Uses[se.Sel] != noRoot {
+				continue
+			}
+			n++
+			okk, _ := fl.guardedBy(ret, func(ft Fact) bool {
+				be, ok := ast.Unparen(ft.E).(*ast.BinaryExpr)
+				if !ok || be.Op != token.NEQ || !ft.Pos || !isNilIdent(info, be.Y) {
+					return false
+				}
+				tv, ok := info.Types[be.X]
+				return ok && types.Identical(tv.Type, errT)
+			}, nil)
+			c.verdictIf(okk, rule, f, fmt.Sprintf("return ErrNoRootDirectory#%d", i+1), ret.Pos(), "'no root' is reported only when the root query failed to produce a row",
+				"GetRootPath reports 'no root directory' on a path where the query succeeded (e.g. because the root's name is the empty string): opening a ./- or /-relative archive, or a rebuilt index, then fails or falls back to creating a new root")
+		}
+		if n == 0 {
+			c.unresolved("GetRootPath never returns ErrNoRootDirectory")
+		}
+	}
+}
+
+// ruleC17TrailingSlashRetry: inventory.Stat retries a missing name with a trailing slash (tar writers store
+// directories as "d/").
+func ruleC17TrailingSlashRetry(c *Ctx) {
+	const rule = "C17.trailing-slash-retry"
+	c.floor(rule, 2, "the header and link lookups of inventory.Stat")
+	f := c.fn("pkg/inventory", "Stat")
+	if f == nil {
+		return
+	}
+	info := f.Pkg.TypesInfo
+	for _, m := range []string{"GetHeader", "GetHeaderByLinkname"} {
+		im := c.ifaceMethod("pkg/config", "MetadataPersister", m)
+		plain, slashed := 0, 0
+		for _, cs := range f.calls {
+			if cs.Callee != types.Object(im) || len(cs.Call.Args) != 2 {
+				continue
+			}
+			txt := exprString(cs.Call.Args[1])
+			if strings.Contains(txt, `+ "/"`) {
+				slashed++
+			} else {
+				plain++
+			}
+		}
+		_ = info
+		c.verdictIf(plain >= 1 && slashed >= 1, rule, f, m+" retry", f.Decl.Pos(), "a missing name is retried with a trailing slash",
+			"inventory.Stat no longer retries "+m+" with a trailing slash: directories of archives written by tar(1) are stored as \"d/\", so they can no longer be opened, listed or used as parents")
+	}
+}
+
+// ruleC10ReaderClosedBeforeReopen: a handle's streaming reader is replaced only after the previous stream was closed
+// (its goroutine holds the read operations' lock and the drive until then) or where no stream can be open.
+func ruleC10ReaderClosedBeforeReopen(c *Ctx) {
+	const rule = "C10.reader-closed-before-reopen"
+	c.floor(rule, 2, "sites that (re)open the streaming reader of a file handle")
+	rd := c.field("pkg/fs", "File", "readOpReader")
+	wr := c.field("pkg/fs", "File", "readOpWriter")
+	closer := c.fn("pkg/fs", "(*File).closeWithoutLocking")
+	if rd == nil || wr == nil || closer == nil {
+		return
+	}
+	// functions that assign a non-nil reader directly
+	opens := map[*FuncInfo]bool{}
+	for _, st := range c.storesTo(rd) {
+		if st.Value != nil && !isNilIdent(st.In.Pkg.TypesInfo, st.Value) {
+			opens[st.In] = true
+		}
+	}
+	justified := func(g *FuncInfo, site ast.Node) bool {
+		info := g.Pkg.TypesInfo
+		fl := c.flow(g)
+		okk, _ := fl.dominatedBy(site, func(m ast.Node) bool {
+			for _, call := range callsIn(m) {
+				if calleeObj(info, call) == types.Object(closer.Obj) {
+					return true
+				}
+			}
+			return false
+		}, nil)
+		if okk {
+			return true
+		}
+		conds := enclosingConds(g.Body(), site)
+		if len(conds) == 0 || !conds[0].pos {
+			return false
+		}
+		// every disjunct of the innermost condition is a nil test of a stream field
+		var all func(e ast.Expr) bool
+		all = func(e ast.Expr) bool {
+			e = ast.Unparen(e)
+			be, ok := e.(*ast.BinaryExpr)
+			if !ok {
+				return false
+			}
+			if be.Op == token.LOR {
+				return all(be.X) && all(be.Y)
+			}
+			fv := selField(info, be.X)
+			return be.Op == token.EQL && (fv == rd || fv == wr) && isNilIdent(info, be.Y)
+		}
+		return all(conds[0].e)
+	}
+	n := 0
+	seen := map[*FuncInfo]bool{}
+	var visit func(g *FuncInfo)
+	visit = func(g *FuncInfo) {
+		if seen[g] {
+			return
+		}
+		seen[g] = true
+		info := g.Pkg.TypesInfo
+		var sites []ast.Node
+		walkOwn(g.Body(), func(nd ast.Node) {
+			if as, ok := nd.(*ast.AssignStmt); ok {
+				for i, l := range as.Lhs {
+					if selField(info, l) == rd && i < len(as.Rhs) && !isNilIdent(info, as.Rhs[i]) {
+						sites = append(sites, as)
+					}
+				}
+			}
+		})
+		for _, cs := range g.calls {
+			if cs.Target != nil && opens[cs.Target] && cs.Target != g {
+				sites = append(sites, cs.Call)
+			}
+		}
+		for _, s := range sites {
+			if justified(g, s) {
+				n++
+				c.ok(rule, g, fmt.Sprintf("reopen#%d", n), s.Pos(), true, "the previous stream is closed first, or no stream can be open here")
+				continue
+			}
+			// not justified locally: a helper - its callers inherit the obligation
+			callers := 0
+			for _, h := range c.Funcs {
+				for _, cs := range h.calls {
+					if cs.Target == g {
+						callers++
+					}
+				}
+			}
+			if g.Decl != nil && !g.Decl.Name.IsExported() && callers > 0 {
+				opens[g] = true
+				for _, h := range c.Funcs {
+					for _, cs := range h.calls {
+						if cs.Target == g {
+							seen[h] = false
+							visit(h)
+						}
+					}
+				}
+				continue
+			}
+			n++
+			c.bad(rule, g, fmt.Sprintf("reopen#%d", n), s.Pos(), "the streaming reader is replaced while a previous stream may still be open and without closing it: its goroutine keeps the read operations' lock and the drive forever, so the next read on the handle - and then every other call - hangs")
+		}
+	}
+	for f := range opens {
+		visit(f)
+	}
+	if n == 0 {
+		c.unresolved("no site opens File.readOpReader")
+	}
+}
+
+func init() {
+	extend("C10", ruleC10ReaderClosedBeforeReopen)
+	extend("C14", func(c *Ctx) {}) // (position semantics of reopening are covered by C14.no-stale-position / cursor-preserved)
+}
